@@ -57,6 +57,9 @@ pub struct Case {
     pub output_file: bool,
     /// permutation of the file arguments for the second run
     pub perm: Vec<usize>,
+    /// a file argument that is named once more at the end of the argument list in a further run
+    #[serde(default)]
+    pub repeat_arg: Option<usize>,
     pub sched: SchedCfg,
 }
 
@@ -382,6 +385,7 @@ impl Check for C14 {
             style: k.weighted(&[15, 55, 15, 15]) as u8,
             output_file: k.chance(2, 3),
             perm,
+            repeat_arg: { let mut r = rng.sub("repeat"); if r.chance(1, 4) { Some(r.usize(8)) } else { None } },
             sched: SchedCfg::gen(&mut rng.sub("sched")),
         }
     }
@@ -451,7 +455,7 @@ impl Check for C14 {
         out
     }
     fn rule() -> &'static str {
-        "one run = 1-3 input files written from one simulated world (<= 160 messages; consecutive chunks of one recording or one file per ECU; marker-free garbage between messages) and one option combination over -b/-e, --lcs, --eac (1-3 literal/regex expressions), -f in dlt-viewer DLF and dlt-convert format (positive/negative/marker/disabled), --sort, -a/-x/-s/none, -o; the real convert() is executed 3-4 times inside shuttle executions with small channel bounds: baseline (-a -o, no selection), baseline listing, the selection run, and the selection run with permuted file arguments; expected selection = window AND lifecycle set AND filter rule with an abstract reference predicate written for the oracle; every selected message exactly once on screen and in the re-read -o file; non-trivial = some but not all messages selected; distinct = hash of the case"
+        "one run = 1-3 input files written from one simulated world (<= 160 messages; consecutive chunks of one recording or one file per ECU; marker-free garbage between messages) and one option combination over -b/-e, --lcs, --eac (1-3 literal/regex expressions), -f in dlt-viewer DLF and dlt-convert format (positive/negative/marker/disabled), --sort, -a/-x/-s/none, -o; the real convert() is executed 3-4 times inside shuttle executions with small channel bounds: baseline (-a -o, no selection), baseline listing, the selection run, the selection run with permuted file arguments, and (a quarter of the runs) the selection run with one file argument named once more at the end; expected selection = window AND lifecycle set AND filter rule with an abstract reference predicate written for the oracle; every selected message exactly once on screen and in the re-read -o file; non-trivial = some but not all messages selected; distinct = hash of the case"
     }
     fn assumptions() -> Vec<&'static str> {
         vec![
@@ -467,7 +471,7 @@ impl Check for C14 {
         vec!["thread scheduling/channels (shuttle + seam, bounds overridden)", "world model writing the input files", "real file system in a per-run directory"]
     }
     fn required_reach() -> Vec<&'static str> {
-        vec!["try_send_full", "opt_index_window", "opt_lcs", "opt_eac", "opt_filter_file_dlf", "opt_filter_file_convert", "opt_sort", "opt_output_file", "multi_file", "files_with_equal_start_time", "file_starting_with_maximum_size_message", "filter_file_with_marker_filter", "output_file_preexisting_and_longer", "permutation_compared"]
+        vec!["try_send_full", "opt_index_window", "opt_lcs", "opt_eac", "opt_filter_file_dlf", "opt_filter_file_convert", "opt_sort", "opt_output_file", "multi_file", "files_with_equal_start_time", "file_starting_with_maximum_size_message", "filter_file_with_marker_filter", "output_file_preexisting_and_longer", "permutation_compared", "repeated_file_argument"]
     }
 }
 
@@ -668,6 +672,19 @@ fn run_inner(c: &Case, ctx: &mut Ctx, root: &std::path::Path, perm_ok: bool) -> 
         }
         check_run(&s2, &sel_out, "run with permuted file arguments")?;
         ctx.probe("permutation_compared");
+    }
+    // ---- a file argument named twice: convert drops repeated file arguments, so nothing may change
+    if let Some(j) = c.repeat_arg {
+        let mut twice: Vec<String> = paths.clone();
+        twice.push(paths[j % paths.len()].clone());
+        let _ = std::fs::remove_file(&sel_out);
+        let nb = crate::lc::peek_next_aligned_base();
+        let (s3, _) = run_convert(mk_sel(nb, &twice), &c.sched, ctx)?;
+        if !s3.ok {
+            viol!("convert-error", "run with a repeated file argument failed: {}", s3.err);
+        }
+        check_run(&s3, &sel_out, "run with a file argument named twice")?;
+        ctx.probe("repeated_file_argument");
     }
     ctx.nontrivial = !expected.is_empty() && expected.len() < total;
     Ok(())
